@@ -185,7 +185,8 @@ async def run_case(ctx: Ctx, mods, case: dict) -> None:
     if case["cookies"]:
         req["cookies"] = {"c1": "v1"}
     if case["body"]:
-        req["json"] = {"k": [1, 2, {"z": None}]}
+        # present-but-falsy bodies are bodies too ([] / {} / 0 / False / "")
+        req["json"] = [{"k": [1, 2, {"z": None}]}, [], {}, 0, False, ""][(case["pattern"] + len(plugs) + int(case["params"])) % 6]
     elif case["explicit_none"]:
         req["json"] = None
         req["data"] = None
@@ -250,7 +251,7 @@ async def run_case(ctx: Ctx, mods, case: dict) -> None:
                       f"expected {ck} got {got_ck}")
     if case["body"]:
         try:
-            if json.loads(r.content) != req["json"]:
+            if json.loads(r.content) != req["json"] or type(json.loads(r.content)) is not type(req["json"]):
                 rec.violation("wire:body_changed", feats, case, r.content[:200].decode("utf-8", "replace"))
         except Exception as e:
             rec.violation("wire:body_unreadable", feats, case, repr(e))
